@@ -31,6 +31,7 @@ from crosshair.statespace import CallAnalysis, RootNode, StateSpace, StateSpaceC
 from crosshair.tracers import COMPOSITE_TRACER
 from crosshair.util import IgnoreAttempt, NotDeterministic, UnexploredPath
 
+from . import chfix  # noqa: F401
 from .h import COVER, HViolation, run_concrete, _sig_of  # noqa: F401
 
 STATS = {'queries': 0, 'solver_s': 0.0}
